@@ -175,6 +175,19 @@ def polyhedron_is_inside(chk, shapes, ld, mode):
                    replay=replay_winding(), abstracted=True)
         if not (ok1 and lim_ok):
             continue
+        # concretisation cross-check of the engine: the symbolic value at T = 12 triangles / Q = 40 points against the same text run by CPython
+        if mode == "batch" and getattr(tail, "cpython", None) is not None:
+            from pyvc import concrete
+            rng = np.random.RandomState(3)
+            cube = np.array([[x, y, z] for x in (0.0, 1.0) for y in (0.0, 1.0) for z in (0.0, 1.0)])
+            tri_c = np.array([[0, 2, 3], [0, 3, 1], [4, 5, 7], [4, 7, 6], [0, 1, 5], [0, 5, 4], [2, 6, 7], [2, 7, 3], [0, 4, 6], [0, 6, 2], [1, 3, 7], [1, 7, 5]])
+            pts_c = np.vstack([rng.uniform(-0.5, 1.5, size=(30, 3)), np.array([[0.5, 0.5, z_] for z_ in (-0.5, 0.25, 0.5, 1.5)] +
+                                                                               [[1.0, y_, 0.5] for y_ in (-0.5, 0.5, 1.5)] + [[0.0, 0.0, 2.0], [0.25, 0.25, 0.75], [2.0, 1.0, 1.0]])])
+
+            class _O:
+                vertices = cube
+            env = concrete.Env(sizes={TT: len(tri_c), CT.Q: len(pts_c), H.N: len(cube)}, arrays={"Vh": cube, "tri": tri_c, "pt": pts_c})
+            concrete.cross_check(chk, f"Polyhedron.is_inside[{t}]", fkey, code, env, (CT.Q,), tail.cpython(_O(), pts_c, None, tri_c), boolean=True)
         j = S.limits[0][0]
         body = S.function
         # (2) offsets only ----------------------------------------------------------------------------------------------
@@ -227,7 +240,12 @@ def polyhedron_is_inside(chk, shapes, ld, mode):
                     bad = (sx, sd, r)
                     break
                 if r.status != "unsat":
-                    unknown += 1
+                    r = z3back.prove(lemma + case, sp.Eq(full_u, spec), timeout_ms=180000)      # once more with a long budget (busy machine)
+                    if r.status == "sat":
+                        bad = (sx, sd, r)
+                        break
+                    if r.status != "unsat":
+                        unknown += 1
             if bad:
                 break
         nm = f"{tag}:triangle_term_is_signed_crossing_of_the_vertical_line[{t}]"
